@@ -55,6 +55,19 @@ def _near_any_edge(subgrids, lat_sec, lonw_sec, margin=1e-6):
     return False
 
 
+def _on_limit(sg, lat_sec, lonw_sec, own, margin=1e-6):
+    """Is the point within rounding of a limit of sg where membership is not settled by the lower-limits-inclusive rule?
+    For the queried sub-grid itself only its northern / western limits count (its southern / eastern limits are the subject)."""
+    s_lat, n_lat, e_long, w_long = NF.extents(sg)
+    lims_lat = [n_lat] if own else [s_lat, n_lat]
+    lims_lon = [w_long] if own else [e_long, w_long]
+    if not own and (lat_sec == s_lat or lonw_sec == e_long):
+        lims_lat, lims_lon = [n_lat], [w_long]      # exactly on another sub-grid's lower limit is settled too (inclusive)
+    near_lat = any(abs(lat_sec - x) < margin for x in lims_lat) and e_long - 1 <= lonw_sec <= w_long + 1
+    near_lon = any(abs(lonw_sec - x) < margin for x in lims_lon) and s_lat - 1 <= lat_sec <= n_lat + 1
+    return near_lat or near_lon
+
+
 def _query_point(subgrids, q):
     sg = subgrids[q["sg"] % len(subgrids)]
     s_lat, n_lat, e_long, w_long = NF.extents(sg)
@@ -88,6 +101,12 @@ def _query_point(subgrids, q):
             v = sign * d / sg["long_inc"]
         else:
             v = (nc - 1) - sign * d / sg["long_inc"]
+    elif kind == "se_edge":
+        # exactly on the southern and / or eastern limit (they belong to the sub-grid): corner, first row / column nodes, edge points
+        side = q["side"] % 3
+        u = 0.0 if side in (0, 2) else (float(r + q["ir"]) if q["ic"] else r + q["fu"])
+        v = 0.0 if side in (1, 2) else (float(c + q["ic"]) if q["ir"] else c + q["fv"])
+        return s_lat + u * sg["lat_inc"], e_long + v * sg["long_inc"]
     else:       # far outside everything
         u, v = -5.0 - q["fu"] * 50, -5.0 - q["fv"] * 50
     if kind not in ("just_outside", "far"):
@@ -136,9 +155,16 @@ def _check_file(nt, tf, path, subgrids, case):
     worst = 0.0
     for q in case["queries"]:
         lat_sec, lonw_sec = _query_point(subgrids, q)
-        if _near_any_edge(subgrids, lat_sec, lonw_sec):
-            continue
         lat, lon = lat_sec / 3600.0, -lonw_sec / 3600.0
+        if q["kind"] == "se_edge":
+            # only where the degree value reproduces the limit exactly, and no other limit is within rounding of the point
+            if lat * 3600.0 != lat_sec or lon * -3600.0 != lonw_sec:
+                continue
+            own = subgrids[q["sg"] % len(subgrids)]
+            if any(_on_limit(sg, lat_sec, lonw_sec, sg is own) for sg in subgrids):
+                continue
+        elif _near_any_edge(subgrids, lat_sec, lonw_sec):
+            continue
         if not (-90.0 <= lat <= 90.0):
             continue
         method = q["method"]
@@ -188,6 +214,15 @@ def _check_file(nt, tf, path, subgrids, case):
             if method == "bilinear" and cls in ("constant", "linear") and not abs(res[k] - exact) <= 1e-6 + 1e-6 * ga:
                 raise Fail("bilinear interpolation does not reproduce a linear field", expected=exact,
                            observed=dict(ctx, result=res[k]), bucket="bilinear linear")
+        if method == "bicubic" and q.get("forward") and q["ir"]:
+            # the documented defaults: bicubic interpolation, forward direction
+            if tuple(nt.interpolate_ntv2(g, lat, lon)) != tuple(res):
+                raise Fail("interpolate_ntv2 without a method is not the documented default (bicubic)", expected=res,
+                           observed=dict(ctx, result=nt.interpolate_ntv2(g, lat, lon)), bucket="default method")
+            if tuple(tf.ntv2_2d(g, lat, lon)) != tuple(tf.ntv2_2d(g, lat, lon, True, "bicubic")):
+                raise Fail("ntv2_2d without direction and method is not the documented default (forward, bicubic)",
+                           expected=tf.ntv2_2d(g, lat, lon, True, "bicubic"), observed=dict(ctx, result=tf.ntv2_2d(g, lat, lon)),
+                           bucket="default arguments")
         # (c) 2-D transformation: add the latitude shift, subtract the positive-west longitude shift (arc-seconds)
         fwd = q["forward"]
         t = tf.ntv2_2d(g, lat, lon, fwd, method)
@@ -212,6 +247,8 @@ _unit = S.floats(0.0, 1.0)
 INC_INT = [30.0, 45.0, 60.0, 75.0, 150.0, 300.0, 600.0, 900.0, 1800.0, 3600.0]
 INC_DYADIC = [37.5, 56.25, 112.5, 93.75, 468.75]
 INC_MILLI = [30.001, 45.123, 60.6, 299.999, 150.05, 1000.007]
+# increments with 4 .. 6 decimals: (increment, m) such that m x increment has 3 decimals (extents are stored to 0.001")
+INC_MICRO = [(45.0005, 2), (30.00025, 4), (60.0002, 5), (30.000125, 8), (75.0001, 10), (150.0625, 16), (37.500125, 8), (3599.9995, 2)]
 
 
 def _dy(draw, lim, den):
@@ -240,11 +277,15 @@ def _fields(draw):
 
 @st.composite
 def grid_files(draw):
-    cls = draw(st.sampled_from(["int", "int", "dyadic", "milli"]))
-    pool = {"int": INC_INT, "dyadic": INC_DYADIC, "milli": INC_MILLI}[cls]
+    cls = draw(st.sampled_from(["int", "int", "dyadic", "milli", "micro"]))
+    pool = {"int": INC_INT, "dyadic": INC_DYADIC, "milli": INC_MILLI, "micro": INC_INT}[cls]
     lat_inc, long_inc = draw(st.sampled_from(pool)), draw(st.sampled_from(pool))
     nrows = draw(st.one_of(st.integers(3, 12), st.integers(3, 60)))
     ncols = draw(st.one_of(st.integers(3, 12), st.integers(3, 60)))
+    if cls == "micro":
+        (lat_inc, m1), (long_inc, m2) = draw(st.sampled_from(INC_MICRO)), draw(st.sampled_from(INC_MICRO))
+        nrows = m1 * draw(st.integers(1, max(1, 48 // m1))) + 1
+        ncols = m2 * draw(st.integers(1, max(1, 48 // m2))) + 1
     span_lat = (nrows - 1) * lat_inc
     span_lon = (ncols - 1) * long_inc
     lat0 = -88.0 * 3600 + draw(_unit) * max(0.0, 176.0 * 3600 - 2 * span_lat - 7200)
@@ -301,11 +342,11 @@ def grid_files(draw):
     for _ in range(nq):
         queries.append({
             "sg": draw(st.integers(0, 7)),
-            "kind": draw(st.sampled_from(["node", "edge", "interior", "interior", "ring", "ring", "just_inside", "just_outside", "far"])),
+            "kind": draw(st.sampled_from(["node", "edge", "interior", "interior", "ring", "ring", "just_inside", "just_outside", "far", "se_edge"])),
             "fr": draw(_unit), "fc": draw(_unit), "fu": draw(_unit), "fv": draw(_unit), "ir": draw(st.integers(0, 1)),
             "ic": draw(st.integers(0, 1)), "side": draw(st.integers(0, 3)), "delta": draw(S.log_uniform(2e-6, 1.0)),
             "method": draw(st.sampled_from(["bilinear", "bicubic", "bicubic"])), "forward": draw(st.booleans())})
-    return {"subgrids": subs, "queries": queries, "gs_type": draw(st.sampled_from(["SECONDS", "SECONDS", "MINUTES"])),
+    return {"subgrids": subs, "queries": queries, "gs_type": "SECONDS",      # (shifts are stated in arc-seconds; what a reader should do with another GS_TYPE is not)
             "system_f": draw(st.sampled_from(["AGD66", "GDA94", "A"])), "system_t": draw(st.sampled_from(["GDA94", "GDA2020", "WGS84"]))}
 
 
@@ -317,7 +358,8 @@ def _classes(case):
     subs = case["subgrids"]
     out = ["subgrids:%d" % len(subs)]
     inc = subs[0]["lat_inc"]
-    out.append("inc:int" if inc == int(inc) else ("inc:dyadic" if (inc * 16) == int(inc * 16) else "inc:milli"))
+    out.append("inc:int" if inc == int(inc) else ("inc:micro (4-6 decimals)" if round(inc, 3) != inc else
+                                                  ("inc:dyadic" if (inc * 16) == int(inc * 16) else "inc:milli")))
     if any(s["e_long"] < 0 for s in subs):
         out.append("east-longitudes")
     if any(s["e_long"] > 0 for s in subs):
